@@ -13,9 +13,9 @@
   (Ptx/Gen/Obl_<L>.lean: rules_exact, rules_sound, rules_total, rules_local).  The theorems below
   give the abstract check its meaning for ARBITRARY sentences and structures (no bound on domain
   size, number of worlds or sentence depth): the "→" half for operator and modal rules, and the
-  closure characterisation for the frame rules.  The "←" half of the lift (used by C02) and the
-  quantifier-rule lift are not proved yet — hence `_partial` in the names; the abstract "iff" itself
-  is checked in full for every rule, including quantifier rules.
+  closure characterisation for the frame rules.  The "→" half is lifted for operator, quantifier
+  and modal rules; the "←" half of the lift (used by C02) is not proved yet — hence `_partial` in
+  the names; the abstract "iff" itself is checked in full for every rule row.
 -/
 import Ptx.Proofs.Restrict
 import Ptx.Sem.Frames
@@ -52,6 +52,28 @@ theorem C04_modal_rule_forward_partial {L : LogicData} {M : Struct}
     (e : Env M.D) (σ : Nat → M.W) (hsb : SatB L M e σ b) :
     ∃ σ' : Nat → M.W, SatB L M e σ' b ∧ ∃ g ∈ gs, ∀ n ∈ g, satNode L M e σ' n :=
   modal_rule_sound hT hM hm hmo hd hr b hnode var wo hwit hgs e σ hsb
+
+/-- Quantifier rules, for every nonempty domain (no bound on its size): a satisfied node has a
+    satisfied extension, after interpreting a fresh witness constant suitably (new-constant
+    rules), for every constant (re-applying rules), or as is (witness-free rules). -/
+theorem C04_quant_rule_forward_partial {L : LogicData} {M : Struct}
+    (hT : L.tablesTotalB = true) (hM : M.Interp L) (hq : L.quantified = true)
+    {s : Sent} {d : Option Bool} {w : Option Nat} {q : Quant} {ng : Bool} {vi vs : Nat} {body : Sent} {r : Rule}
+    (hd : s.decomp = some (.quant q, ng, .quant q vi vs body))
+    (hok : (Sent.quant q vi vs body).quantOK L = true)
+    (hr : L.ruleSoundB ⟨.quant q, ng, d⟩ r = true)
+    (b : Branch) (hnode : Node.sent s d w ∈ b.nodes) (c : Option (Nat × Nat))
+    {gs : List (List Node)}
+    (hgs : match r.witness with
+      | .none => mapOpt (instAdds (.quant q vi vs body) body none (some body) (vi, vs) w none) r.branches = some gs
+      | .newConst => ∃ ci cs, c = some (ci, cs) ∧ (ci, cs) ∉ b.consts ∧
+          mapOpt (instAdds (.quant q vi vs body) (body.psubst (.const ci cs) (.var vi vs)) none (some body) (vi, vs) w none) r.branches = some gs
+      | .eachConst => ∃ ci cs, c = some (ci, cs) ∧
+          mapOpt (instAdds (.quant q vi vs body) (body.psubst (.const ci cs) (.var vi vs)) none (some body) (vi, vs) w none) r.branches = some gs
+      | _ => True)
+    (e : Env M.D) (σ : Nat → M.W) (hsb : SatB L M e σ b) :
+    ∃ e' : Env M.D, SatB L M e' σ b ∧ ∃ g ∈ gs, ∀ n ∈ g, satNode L M e' σ n :=
+  quant_rule_sound hT hM hq hd hok hr b hnode c hgs e σ hsb
 
 /-- Frame rules: the closure computed by the model contains the given pairs, is contained in
     every relation with the frame property that contains them, and — when the iteration has
